@@ -206,6 +206,10 @@ def check_normalisation(ctx):
     fi = repo.func(f"{WF}:Wavefunction._check_normalization")
     ctx.analysed(fi)
     cfg = cfg_of(fi.node)
+    # (the same predicates used directly in the normalisation check -- with or without the helper -- are judged alike)
+    for n in body_walk(fi.node):
+        if isinstance(n, ast.Attribute) and n.attr in ("is_Number", "is_Float", "is_Integer", "is_Rational", "is_NumberSymbol", "is_Atom"):
+            ctx.violation(R4, fi.key + ":complete", f"_check_normalization selects the numeric entries with `{short(n)}`: true for atomic numbers only, so symbol-free expressions (0.9*I, sqrt(3)/2) are left out and a vector whose fixed entries already exceed probability 1 is accepted", f"{fi.module.relpath}:{n.lineno}")
     p = positional_params(fi.node)[-1]
     branch = [n for n in cfg.nodes if n.kind == "test" and isinstance(n.ast, ast.If) and "isinstance" in norm(n.ast.test)]
     if not branch:
@@ -263,6 +267,9 @@ def check_normalisation(ctx):
         else:
             ctx.check(verdict, R4, fi.key + ":symbolic-sum", "tested quantity is sum |a_i|^2 over the numeric entries", f"the symbolic branch tests {short(q)}: for complex numeric entries that under-counts their weight (conjugation or square missing), so over-unity vectors are accepted", fi)
     ctx.check(bool(sel) and norm(sel[0].generators[0].iter) == p, R4, fi.key + ":numeric-entries", "numeric entries of the vector selected by _is_number", "the symbolic branch does not select the numeric entries of the given vector", fi)
+    if not repo.has_func(f"{WF}:_is_number"):
+        ctx.undecided(R4, f"{WF}:_is_number", "the numeric-entry classifier _is_number is gone", fi)
+        return
     isn = repo.func(f"{WF}:_is_number")
     ctx.analysed(isn)
     probes = [dotted(c.func) for c in body_walk(isn.node) if isinstance(c, ast.Call) and dotted(c.func) in ("complex", "float", "int")]
